@@ -1068,7 +1068,8 @@ func (mgr *Manager) DelTag(name string) error {
 			}
 			// remove converter results of attached converters from cache
 			if len(tag.converters) > 0 {
-				for _, converter := range tag.converters {
+				// (detaching modifies tag.converters, iterate over a copy)
+				for _, converter := range slices.Clone(tag.converters) {
 					if err := mgr.detachConverterFromTag(tag, name, converter); err != nil {
 						return err
 					}
@@ -1201,6 +1202,66 @@ func (mgr *Manager) UpdateTag(name string, operation UpdateTagOperation) error {
 			if !ok {
 				return fmt.Errorf("unknown tag %q", name)
 			}
+			// validate the whole request before mutating anything, a failing
+			// call must leave all tags unchanged
+			if newTag != nil {
+				// check if all referenced tags exist and that no reference cycle arises
+				seen := map[string]struct{}{}
+				todo := newTag.referencedTags()
+				for len(todo) != 0 {
+					tn := todo[len(todo)-1]
+					todo = todo[:len(todo)-1]
+					if tn == name {
+						return errors.New("reference cycle not allowed in tags")
+					}
+					if _, ok := seen[tn]; ok {
+						continue
+					}
+					t, ok := mgr.tags[tn]
+					if !ok {
+						return fmt.Errorf("unknown referenced tag %q", tn)
+					}
+					seen[tn] = struct{}{}
+					todo = append(todo, t.referencedTags()...)
+				}
+			}
+			if info.convertersUpdated {
+				features := tag.features
+				if newTag != nil {
+					features = newTag.features
+				}
+				attached := tag.converterNames()
+				for _, converterName := range info.setConverterNames {
+					if slices.Contains(attached, converterName) {
+						continue
+					}
+					if _, ok := mgr.converters[converterName]; !ok {
+						return fmt.Errorf("unknown converter %q", converterName)
+					}
+					if features.MainFeatures&query.FeatureFilterData != 0 || features.SubQueryFeatures&query.FeatureFilterData != 0 || len(features.MainTags) > 0 || len(features.SubQueryTags) > 0 {
+						return fmt.Errorf("failed to attach converter %q to tag %q: query is too complex", converterName, name)
+					}
+				}
+			}
+			if maxUsedStreamID != 0 && maxUsedStreamID >= mgr.nextStreamID {
+				return fmt.Errorf("unknown stream id %d", maxUsedStreamID)
+			}
+			if info.name != "" {
+				oldTyp, _, _ := parseTagName(name)
+				newTyp, newSub, _ := parseTagName(info.name)
+				if newTyp != oldTyp {
+					return errors.New("invalid tag name (can't change type of tag)")
+				}
+				if newSub == "" {
+					return errors.New("invalid tag name (prefix only not allowed)")
+				}
+				if _, ok := mgr.tags[info.name]; ok {
+					return fmt.Errorf("tag %q already exists", info.name)
+				}
+				if len(tag.referencedBy) != 0 {
+					return fmt.Errorf("tag %q still references the tag to be renamed", slices.AppendSeq(make([]string, 0, len(tag.referencedBy)), maps.Keys(tag.referencedBy))[0])
+				}
+			}
 			if info.color != "" {
 				tag.color = info.color
 			}
@@ -1243,7 +1304,8 @@ func (mgr *Manager) UpdateTag(name string, operation UpdateTagOperation) error {
 			}
 			if info.convertersUpdated {
 				// detach deselected converters from tag
-				for _, converter := range tag.converters {
+				// (detaching modifies tag.converters, iterate over a copy)
+				for _, converter := range slices.Clone(tag.converters) {
 					if slices.Contains(info.setConverterNames, converter.Name()) {
 						continue
 					}
